@@ -29,6 +29,7 @@ type Case struct {
 	// Reader: 0 bytes.Reader; 1 returns the final bytes together with io.EOF
 	// (allowed by the io.Reader contract); 2 hands out 1..7 byte pieces; 3 both.
 	Reader int
+	NilCtx bool // the scanner is created with a nil context
 }
 
 // pieceReader is an io.Reader over data with configurable piece size and
@@ -73,7 +74,11 @@ func (c *Case) reader(data []byte) io.Reader {
 func check(c Case) error {
 	enc := c.File.Encode()
 	want, _ := c.File.Expected()
-	s := osmpbf.New(context.Background(), c.reader(enc.Data), c.Procs)
+	ctx := context.Background()
+	if c.NilCtx {
+		ctx = nil // New documents a nil context as context.Background()
+	}
+	s := osmpbf.New(ctx, c.reader(enc.Data), c.Procs)
 	defer s.Close()
 	if c.HeaderFirst {
 		h, err := s.Header()
@@ -132,6 +137,7 @@ func TestScan(t *testing.T) {
 				Procs:       rapid.SampledFrom([]int{1, 2, 3, 4, 7, 16, 32}).Draw(t, "procs"),
 				HeaderFirst: rapid.Bool().Draw(t, "headerFirst"),
 				Reader:      rapid.SampledFrom([]int{0, 0, 1, 2, 3}).Draw(t, "reader"),
+				NilCtx:      rapid.IntRange(0, 5).Draw(t, "nilCtx") == 0,
 			}
 		},
 		Check:    check,
